@@ -887,6 +887,9 @@ func c11direct(c *vt.Ctx, e vt.Env) {
 			for j := range recs[i] {
 				recs[i][j] = byte(rng.UintN(256))
 			}
+			if len(recs[i]) == 0 && rng.IntN(2) == 0 {
+				recs[i] = nil // the empty record, spelt as a nil slice
+			}
 		}
 		want := make([][]byte, n)
 		for i, r := range recs {
